@@ -1,1 +1,568 @@
-(* placeholder; being written *)
+(** Quotes equal execution (C20): each view of Model/Quotes.v against the operation it quotes, for
+    every state satisfying the subsystem's invariant and every argument. *)
+From MX Require Import Base.Prelude Gen.Params Model.Quotes.
+From MX Require Model.Pair Model.Farm Model.Staking Model.Penalty Model.PriceDiscovery.
+From MX Require Proofs.ParamFacts Proofs.PairMath Proofs.PairInv Proofs.PairChar.
+From MX Require Proofs.FarmInv Proofs.FarmSolv Proofs.FarmRps.
+From MX Require Proofs.PenaltyProofs Proofs.PriceDiscoveryProofs.
+
+(** ================================================================== dex/pair *)
+Module PairQ.
+Import MX.Model.Pair MX.Proofs.ParamFacts MX.Proofs.PairInv MX.Proofs.PairChar QPair.
+
+Lemma rin_rout_true p : rin p true = p_r1 p /\ rout p true = p_r2 p.
+Proof. split; reflexivity. Qed.
+Lemma rin_rout_false p : rin p false = p_r2 p /\ rout p false = p_r1 p.
+Proof. split; reflexivity. Qed.
+
+(** the view, written by direction *)
+Lemma get_amount_out_ord p ord ain :
+  get_amount_out p (tok_in ord) ain =
+  (check (0 <? ain) else EGuard;
+   check (0 <? rout p ord) else EGuard;
+   do out <- amount_out (p_fee p) ain (rin p ord) (rout p ord);
+   check (out <? rout p ord) else EGuard; Ok out).
+Proof. destruct ord; reflexivity. Qed.
+
+Lemma get_amount_in_ord p ord aout :
+  get_amount_in p (tok_out ord) aout =
+  (check (0 <? aout) else EGuard;
+   check (aout <? rout p ord) else EGuard;
+   amount_in (p_fee p) aout (rin p ord) (rout p ord)).
+Proof. destruct ord; reflexivity. Qed.
+
+(** getAmountOut versus swapTokensFixedInput: whenever the swap executes (any caller, any minimum)
+    it delivers exactly the quoted amount *)
+Lemma amount_out_exec p c tin ain tout mn p' outs e :
+  PairInv p -> ep_swap_in p c tin ain tout mn = Ok (p', outs, e) ->
+  exists y, get_amount_out p tin ain = Ok y /\ outs = [y] /\ 0 < mn <= y.
+Proof.
+  intros Hinv H. apply swap_in_char in H; auto.
+  destruct H as (ord & out & sp & Hord & -> & _ & Hain & HF & Hmn & Hout & _).
+  destruct (swap_order_spec _ _ _ Hord) as [-> _].
+  destruct (fee_lt_M _ Hinv) as (Fs & FM).
+  destruct (pool_positive p ord out Hinv ltac:(lia)) as (HS & Hri & Hro).
+  assert (HD : 0 < rin p ord * M + ain * (M - p_fee p)) by (pose proof M_pos; nia).
+  apply is_floor_unique in HF; [|exact HD].
+  exists out. split; [|split; [reflexivity | exact Hmn]].
+  rewrite get_amount_out_ord.
+  assert (E1 : (0 <? ain) = true) by (apply Z.ltb_lt; lia). rewrite E1.
+  assert (E2 : (0 <? rout p ord) = true) by (apply Z.ltb_lt; lia). rewrite E2.
+  unfold amount_out, div_chk. cbv zeta.
+  assert (E3 : (rin p ord * M + ain * (M - p_fee p) =? 0) = false) by (apply Z.eqb_neq; lia). rewrite E3.
+  cbn [bind]. rewrite <- HF.
+  assert (E4 : (out <? rout p ord) = true) by (apply Z.ltb_lt; lia). rewrite E4. reflexivity.
+Qed.
+
+(** view errors are swap errors: zero input, zero reserve, unknown token, quoted amount not below the reserve *)
+Lemma amount_out_err p c tin ain tout mn er :
+  PairInv p -> get_amount_out p tin ain = Err er -> is_ok (ep_swap_in p c tin ain tout mn) = false.
+Proof.
+  intros Hinv Hv. destruct (ep_swap_in p c tin ain tout mn) as [[[p' o] e]|] eqn:E; [|reflexivity].
+  apply amount_out_exec in E; auto. destruct E as (y & Hy & _). congruence.
+Qed.
+
+(** a quote of 0 promises nothing and the swap delivers nothing: it fails *)
+Lemma amount_out_zero p c tin ain tout mn :
+  PairInv p -> get_amount_out p tin ain = Ok 0 -> is_ok (ep_swap_in p c tin ain tout mn) = false.
+Proof.
+  intros Hinv Hv. destruct (ep_swap_in p c tin ain tout mn) as [[[p' o] e]|] eqn:E; [|reflexivity].
+  apply amount_out_exec in E; auto. destruct E as (y & Hy & _ & Hm). rewrite Hv in Hy. inversion Hy. lia.
+Qed.
+
+(** getAmountIn versus swapTokensFixedOutput: the amount actually charged is the quote, the rest of
+    the maximum comes back *)
+Lemma amount_in_exec p c tin amax tout aout p' outs e :
+  PairInv p -> ep_swap_out p c tin amax tout aout = Ok (p', outs, e) ->
+  exists x, get_amount_in p tout aout = Ok x /\ outs = [aout; amax - x] /\ 0 < x <= amax.
+Proof.
+  intros Hinv H. apply swap_out_char in H; auto.
+  destruct H as (ord & ch & sp & Hord & -> & _ & Hao & HF & Hch & _).
+  destruct (swap_order_spec _ _ _ Hord) as [_ ->].
+  destruct (fee_lt_M _ Hinv) as (Fs & FM).
+  destruct (pool_positive p ord aout Hinv ltac:(lia)) as (HS & Hri & Hro).
+  assert (HD : 0 < (rout p ord - aout) * (M - p_fee p)) by (pose proof M_pos; nia).
+  apply is_floor_unique in HF; [|exact HD].
+  exists ch. split; [|split; [reflexivity | exact Hch]].
+  rewrite get_amount_in_ord.
+  assert (E1 : (0 <? aout) = true) by (apply Z.ltb_lt; lia). rewrite E1.
+  assert (E2 : (aout <? rout p ord) = true) by (apply Z.ltb_lt; lia). rewrite E2.
+  unfold amount_in, sub_chk, div_chk.
+  assert (E3 : (rout p ord <? aout) = false) by (apply Z.ltb_ge; lia). rewrite E3. cbn [bind].
+  assert (E4 : ((rout p ord - aout) * (M - p_fee p) =? 0) = false) by (apply Z.eqb_neq; lia). rewrite E4.
+  cbn [bind]. rewrite <- HF. f_equal. lia.
+Qed.
+
+Lemma amount_in_err p c tin amax tout aout er :
+  PairInv p -> get_amount_in p tout aout = Err er -> is_ok (ep_swap_out p c tin amax tout aout) = false.
+Proof.
+  intros Hinv Hv. destruct (ep_swap_out p c tin amax tout aout) as [[[p' o] e]|] eqn:E; [|reflexivity].
+  apply amount_in_exec in E; auto. destruct E as (y & Hy & _). congruence.
+Qed.
+
+(** getTokensForGivenPosition versus removeLiquidity *)
+Lemma tokens_for_position_exec p c lp m1 m2 p' outs e :
+  PairInv p -> ep_remove p c lp m1 m2 = Ok (p', outs, e) ->
+  outs = [fst (get_tokens_for_given_position p lp); snd (get_tokens_for_given_position p lp)].
+Proof.
+  intros Hinv H. apply remove_char in H; auto.
+  destruct H as (x1 & x2 & -> & Hlp & HS & F1 & F2 & _).
+  pose proof min_liq_pos as HM.
+  assert (HSp : 0 < p_S p) by lia.
+  apply is_floor_unique in F1; [|exact HSp]. apply is_floor_unique in F2; [|exact HSp].
+  unfold get_tokens_for_given_position, token_for_position.
+  assert (E : (p_S p =? 0) = false) by (apply Z.eqb_neq; lia). rewrite E. cbn [fst snd]. congruence.
+Qed.
+
+(** ---- the converse: when does the operation deliver the quote?
+    Beyond the view's own guards the endpoints require: the right pair of tokens, an active contract,
+    a positive minimum not above the quote, and - only while a special fee is configured - that
+    forwarding the fee succeeds (send_fee: trusted-pair / burn / collector plumbing, which the view
+    does not look at).  With no fee destination configured the quote is always delivered. *)
+Lemma bool_true_eq (b : bool) : b = true -> forall (A : Type) (x y : A), (if b then x else y) = x.
+Proof. intros ->. reflexivity. Qed.
+
+Lemma amount_out_live p c tin ain tout mn y ord :
+  PairInv p -> get_amount_out p tin ain = Ok y -> 0 < y ->
+  swap_order tin tout = Ok ord -> p_state p = ST_Active -> 0 < mn <= y -> fee_enabled p = false ->
+  exists p', ep_swap_in p c tin ain tout mn = Ok (p', [y], no_eff).
+Proof.
+  intros Hinv Hv Hy Hord Hst Hmn Hfe.
+  destruct (swap_order_spec _ _ _ Hord) as [Htin Htout].
+  rewrite Htin in Hv. rewrite get_amount_out_ord in Hv.
+  destruct (0 <? ain) eqn:E1; [|discriminate]. destruct (0 <? rout p ord) eqn:E2; [|discriminate].
+  apply bind_ok in Hv. destruct Hv as (out & Hout & Hv).
+  destruct (out <? rout p ord) eqn:E3; [|discriminate]. inversion Hv; subst out; clear Hv.
+  apply Z.ltb_lt in E1, E2, E3.
+  destruct (fee_lt_M _ Hinv) as (Fs & FM).
+  destruct (pool_positive p ord y Hinv ltac:(lia)) as (HS & Hri & Hro).
+  pose proof Hout as Hout'. unfold amount_out in Hout'. cbv zeta in Hout'. apply div_chk_ok in Hout'.
+  destruct Hout' as [_ Hyeq].
+  pose proof (PairMath.swap_in_K M M_pos ain (rin p ord) (rout p ord) (p_fee p) 0 E1 Hri Hro ltac:(lia) FM) as HK.
+  rewrite Z.mul_0_r, Z.div_0_l in HK by (pose proof M_pos; lia). rewrite <- Hyeq in HK.
+  unfold ep_swap_in. rewrite Hord. cbn [bind].
+  assert (G1 : (0 <? mn) = true) by (apply Z.ltb_lt; lia). rewrite G1.
+  assert (G2 : (0 <? ain) = true) by (apply Z.ltb_lt; lia). rewrite G2.
+  assert (G3 : can_swap (p_state p) = true) by (unfold can_swap; rewrite Hst; apply Z.eqb_refl). rewrite G3.
+  assert (G4 : (mn <? rout p ord) = true) by (apply Z.ltb_lt; lia). rewrite G4.
+  rewrite Hout. cbn [bind].
+  assert (G5 : (mn <=? y) = true) by (apply Z.leb_le; lia). rewrite G5.
+  assert (G6 : (y <? rout p ord) = true) by (apply Z.ltb_lt; lia). rewrite G6.
+  assert (G7 : negb (y =? 0) = true) by (apply negb_true_iff, Z.eqb_neq; lia). rewrite G7.
+  rewrite Hfe. cbv zeta. unfold sub_chk.
+  assert (G8 : (ain <? 0) = false) by (apply Z.ltb_ge; lia). rewrite G8. cbn [bind].
+  assert (G9 : (rout p ord <? y) = false) by (apply Z.ltb_ge; lia). rewrite G9. cbn [bind].
+  assert (G10 : k_check p (set_rs p ord (rin p ord + (ain - 0)) (rout p ord - y)) = true).
+  { unfold k_check. apply Z.leb_le. clear - HK. unfold rin, rout, set_rs in *. destruct ord; cbn in *; lia. }
+  rewrite G10. rewrite Z.ltb_irrefl. cbn [bind].
+  pose proof (i_b1 _ Hinv) as B1. pose proof (i_b2 _ Hinv) as B2.
+  rewrite Htin, Htout.
+  unfold sub_bal, sub_chk.
+  assert (G11 : (bal (add_bal (set_rs p ord (rin p ord + (ain - 0)) (rout p ord - y)) (tok_in ord) ain) (tok_out ord) <? y) = false).
+  { apply Z.ltb_ge. clear - B1 B2 E3. unfold bal, add_bal, set_rs, rin, rout, tok_in, tok_out in *.
+    destruct ord; cbn in *; lia. }
+  rewrite G11. cbn [bind]. eexists. reflexivity.
+Qed.
+
+Lemma amount_in_live p c tin amax tout aout x ord :
+  PairInv p -> get_amount_in p tout aout = Ok x ->
+  swap_order tin tout = Ok ord -> p_state p = ST_Active -> x <= amax -> fee_enabled p = false ->
+  exists p', ep_swap_out p c tin amax tout aout = Ok (p', [aout; amax - x], no_eff).
+Proof.
+  intros Hinv Hv Hord Hst Hmax Hfe.
+  destruct (swap_order_spec _ _ _ Hord) as [Htin Htout].
+  rewrite Htout in Hv. rewrite get_amount_in_ord in Hv.
+  destruct (0 <? aout) eqn:E1; [|discriminate]. destruct (aout <? rout p ord) eqn:E2; [|discriminate].
+  apply Z.ltb_lt in E1, E2.
+  destruct (fee_lt_M _ Hinv) as (Fs & FM).
+  destruct (pool_positive p ord aout Hinv ltac:(lia)) as (HS & Hri & Hro).
+  pose proof Hv as Hv'. unfold amount_in in Hv'.
+  apply bind_ok in Hv'. destruct Hv' as (d & Hd & Hv'). apply bind_ok in Hv'. destruct Hv' as (q & Hq & Hv').
+  inversion Hv'; subst x; clear Hv'.
+  apply sub_chk_ok in Hd. destruct Hd as [_ ->]. apply div_chk_ok in Hq. destruct Hq as [_ Hqeq].
+  pose proof (PairMath.swap_out_K M M_pos aout (rin p ord) (rout p ord) (p_fee p) 0 ltac:(lia) Hri ltac:(lia) FM) as HK.
+  cbv zeta in HK. rewrite Z.mul_0_r, Z.div_0_l in HK by (pose proof M_pos; lia). rewrite <- Hqeq in HK.
+  assert (Hq0 : 0 <= q).
+  { rewrite Hqeq. apply div_nonneg; pose proof M_pos; nia. }
+  unfold ep_swap_out. rewrite Hord. cbn [bind].
+  assert (G1 : (0 <? aout) = true) by (apply Z.ltb_lt; lia). rewrite G1.
+  assert (G2 : (0 <? amax) = true) by (apply Z.ltb_lt; lia). rewrite G2.
+  assert (G3 : can_swap (p_state p) = true) by (unfold can_swap; rewrite Hst; apply Z.eqb_refl). rewrite G3.
+  assert (G4 : (aout <? rout p ord) = true) by (apply Z.ltb_lt; lia). rewrite G4.
+  rewrite Hv. cbn [bind].
+  assert (G5 : (q + 1 <=? amax) = true) by (apply Z.leb_le; lia). rewrite G5.
+  assert (G7 : negb (q + 1 =? 0) = true) by (apply negb_true_iff, Z.eqb_neq; lia). rewrite G7.
+  rewrite Hfe. cbv zeta. unfold sub_chk.
+  assert (G8 : (q + 1 <? 0) = false) by (apply Z.ltb_ge; lia). rewrite G8. cbn [bind].
+  assert (G9 : (rout p ord <? aout) = false) by (apply Z.ltb_ge; lia). rewrite G9. cbn [bind].
+  assert (G10 : k_check p (set_rs p ord (rin p ord + (q + 1 - 0)) (rout p ord - aout)) = true).
+  { unfold k_check. apply Z.leb_le. clear - HK. unfold rin, rout, set_rs in *. destruct ord; cbn in *; lia. }
+  rewrite G10. rewrite Z.ltb_irrefl. cbn [bind].
+  pose proof (i_b1 _ Hinv) as B1. pose proof (i_b2 _ Hinv) as B2.
+  rewrite Htin, Htout.
+  unfold sub_bal, sub_chk.
+  assert (G11 : (bal (add_bal (set_rs p ord (rin p ord + (q + 1 - 0)) (rout p ord - aout)) (tok_in ord) (q + 1)) (tok_out ord) <? aout) = false).
+  { apply Z.ltb_ge. clear - B1 B2 E2. unfold bal, add_bal, set_rs, rin, rout, tok_in, tok_out in *.
+    destruct ord; cbn in *; lia. }
+  rewrite G11. cbn [bind]. eexists. reflexivity.
+Qed.
+
+(** removeLiquidity with minimum amounts 1 pays the quoted pair exactly when: the contract is active,
+    the caller (not the pair itself) holds the LP, the locked minimum liquidity stays, and each
+    quoted side is positive and below its reserve.  In every other case the view still answers
+    (it has no guards) and the removal is rejected. *)
+Definition remove_guards (p : pair) (c lp : Z) : Prop :=
+  is_state_active (p_state p) = true /\ c <> SELF /\ 0 < lp <= lp_of p c /\
+  lp + MINIMUM_LIQUIDITY <= p_S p /\
+  0 < fst (get_tokens_for_given_position p lp) < p_r1 p /\
+  0 < snd (get_tokens_for_given_position p lp) < p_r2 p.
+
+Lemma tokens_for_position_live p c lp :
+  PairInv p -> remove_guards p c lp ->
+  exists p', ep_remove p c lp 1 1 =
+    Ok (p', [fst (get_tokens_for_given_position p lp); snd (get_tokens_for_given_position p lp)], no_eff).
+Proof.
+  intros Hinv (Hst & Hc & Hlp & HS & H1 & H2).
+  pose proof min_liq_pos as HM.
+  unfold get_tokens_for_given_position, token_for_position in *.
+  assert (E : (p_S p =? 0) = false) by (apply Z.eqb_neq; lia). rewrite E in *. cbn [fst snd] in *.
+  set (x1 := lp * p_r1 p / p_S p) in *. set (x2 := lp * p_r2 p / p_S p) in *.
+  pose proof (i_b1 _ Hinv) as B1. pose proof (i_b2 _ Hinv) as B2.
+  unfold ep_remove. cbn [Z.ltb Z.compare andb]. rewrite Hst.
+  assert (G1 : (0 <? lp) = true) by (apply Z.ltb_lt; lia). rewrite G1.
+  unfold lp_debit. assert (G2 : negb (c =? SELF) = true) by (apply negb_true_iff, Z.eqb_neq; exact Hc). rewrite G2.
+  unfold sub_chk at 1. assert (G3 : (lp_of p c <? lp) = false) by (apply Z.ltb_ge; lia). rewrite G3. cbn [bind].
+  unfold pool_remove. cbn [p_S p_r1 p_r2 set_lp].
+  assert (G4 : (lp + MINIMUM_LIQUIDITY <=? p_S p) = true) by (apply Z.leb_le; lia). rewrite G4.
+  unfold div_chk. rewrite E. cbn [bind]. fold x1 x2.
+  assert (G5 : (0 <? x1) = true) by (apply Z.ltb_lt; lia). rewrite G5.
+  assert (G6 : (1 <=? x1) = true) by (apply Z.leb_le; lia). rewrite G6.
+  assert (G7 : (x1 <? p_r1 p) = true) by (apply Z.ltb_lt; lia). rewrite G7.
+  assert (G8 : (0 <? x2) = true) by (apply Z.ltb_lt; lia). rewrite G8.
+  assert (G9 : (1 <=? x2) = true) by (apply Z.leb_le; lia). rewrite G9.
+  assert (G10 : (x2 <? p_r2 p) = true) by (apply Z.ltb_lt; lia). rewrite G10.
+  unfold sub_chk.
+  assert (G11 : (p_S p <? lp) = false) by (apply Z.ltb_ge; lia). rewrite G11. cbn [bind].
+  assert (G12 : (p_r1 p <? x1) = false) by (apply Z.ltb_ge; lia). rewrite G12. cbn [bind].
+  assert (G13 : (p_r2 p <? x2) = false) by (apply Z.ltb_ge; lia). rewrite G13. cbn [bind].
+  cbn [p_r1 p_r2 set_pool set_lp].
+  assert (G14 : ((p_r1 p - x1) * (p_r2 p - x2) <=? p_r1 p * p_r2 p) = true) by (apply Z.leb_le; nia). rewrite G14.
+  unfold sub_bal, bal, sub_chk. cbn.
+  assert (G15 : (p_bal1 p <? x1) = false) by (apply Z.ltb_ge; lia). rewrite G15. cbn.
+  assert (G16 : (p_bal2 p <? x2) = false) by (apply Z.ltb_ge; lia). rewrite G16. cbn.
+  eexists. reflexivity.
+Qed.
+
+Lemma tokens_for_position_guards p c lp p' outs e :
+  PairInv p -> ep_remove p c lp 1 1 = Ok (p', outs, e) -> remove_guards p c lp.
+Proof.
+  intros Hinv H. pose proof H as H0. apply remove_char in H0; auto.
+  destruct H0 as (x1 & x2 & _ & Hlp & HS & F1 & F2 & _ & _ & Hx1 & Hx2 & _ & _ & _ & _ & _ & _ & Hle).
+  pose proof min_liq_pos as HM. assert (HSp : 0 < p_S p) by lia.
+  apply is_floor_unique in F1; [|exact HSp]. apply is_floor_unique in F2; [|exact HSp].
+  unfold remove_guards, get_tokens_for_given_position, token_for_position.
+  assert (E : (p_S p =? 0) = false) by (apply Z.eqb_neq; lia). rewrite E. cbn [fst snd].
+  unfold ep_remove in H. cbn [Z.ltb Z.compare andb] in H.
+  destruct (is_state_active (p_state p)) eqn:Est; [|discriminate].
+  destruct (0 <? lp); [|discriminate].
+  apply bind_ok in H. destruct H as (p0 & Hdeb & _).
+  unfold lp_debit in Hdeb. destruct (negb (c =? SELF)) eqn:Ec; [|discriminate].
+  apply negb_true_iff, Z.eqb_neq in Ec.
+  split; [reflexivity|]. split; [exact Ec|]. split; [lia|]. split; [exact HS|]. subst x1 x2. split; assumption.
+Qed.
+
+End PairQ.
+
+(** ================================================================== dex/farm *)
+Module FarmQ.
+Import MX.Model.Farm MX.Proofs.FarmInv MX.Proofs.FarmSolv MX.Proofs.FarmRps QFarm.
+
+(** generate_aggregated_rewards never fails: its only division is guarded by supply != 0 *)
+Definition settle_fn (f : farm) (blk : Z) : farm :=
+  if blk <=? f_last f then f else
+  let to_mint := if f_produce f then f_rate f * (blk - f_last f) else 0 in
+  if to_mint =? 0 then upd_core f (f_supply f) (f_reserve f) (f_rps f) blk else
+  let cut := boosted_cut f to_mint in
+  let inc := if f_supply f =? 0 then 0 else (to_mint - cut) * f_dsc f / f_supply f in
+  upd_money (upd_core f (f_supply f) (f_reserve f + to_mint) (f_rps f + inc) blk)
+            (f_bal_rew f + to_mint) (f_bal_farming f) (f_pool f + cut) (f_gen f + to_mint) (f_paid f).
+
+Lemma settle_total f blk : settle f blk = Ok (settle_fn f blk).
+Proof.
+  unfold settle, settle_fn. destruct (blk <=? f_last f); [reflexivity|]. cbv zeta.
+  destruct ((if f_produce f then f_rate f * (blk - f_last f) else 0) =? 0); [reflexivity|].
+  destruct (f_supply f =? 0) eqn:E; [reflexivity|]. unfold div_chk. rewrite E. reflexivity.
+Qed.
+
+(** the settlement reads and writes only reward-accounting fields: burning position tokens first
+    (as claimRewards does with its payments) does not change what it computes *)
+Lemma settle_fn_sbt f g blk : same_but_toks f g -> same_but_toks (settle_fn f blk) (settle_fn g blk).
+Proof.
+  intros (Cc & Cg & Cm). unfold core in Cc. inj Cc. unfold cfgt in Cg. inj Cg. unfold money in Cm. inj Cm.
+  unfold settle_fn, boosted_cut.
+  repeat match goal with E : ?x = ?y |- context[?x] => rewrite E end.
+  destruct (blk <=? f_last f).
+  { unfold same_but_toks, core, cfgt, money. repeat split; congruence. }
+  cbv zeta.
+  destruct ((if f_produce f then f_rate f * (blk - f_last f) else 0) =? 0);
+    unfold same_but_toks, core, cfgt, money; cbn; repeat split; congruence.
+Qed.
+
+Lemma base_reward_sbt f g a x : same_but_toks f g -> base_reward g a x = base_reward f a x.
+Proof.
+  intros H. destruct (sbt_fields _ _ H) as (_ & _ & Er & Ed & _). unfold base_reward. rewrite Er, Ed. reflexivity.
+Qed.
+
+(** under the accounting invariant the view always answers *)
+Lemma calc_rewards_total f blk x a b : MI f -> exists v, calc_rewards f blk x a b = Ok v.
+Proof.
+  intros HM. unfold calc_rewards, query_cache. rewrite settle_total. cbn [bind].
+  pose proof (settle_total f blk) as Hs. apply settle_MI in Hs; auto. destruct Hs as (M' & _).
+  pose proof (dsc_pos _ M') as Hd.
+  unfold base_reward. destruct (a_rps a <? f_rps (settle_fn f blk)); [|cbn [bind]; eauto].
+  unfold div_chk. destruct (f_dsc (settle_fn f blk) =? 0) eqn:E; [apply Z.eqb_eq in E; lia|]. cbn [bind]. eauto.
+Qed.
+
+(** calculateRewardsForGivenPosition(caller, amount, attributes of the nonce) queried at block [blk]
+    = the reward claimRewards pays at block [blk] for that payment (base + the caller's boosted part) *)
+Lemma farm_rewards_exec f blk ep c n0 x0 adds b f' o :
+  FarmAcc f -> ep_claim f blk ep c (n0, x0) adds b = Ok (f', o) ->
+  exists a nn amt v,
+    find_attrs (f_attrs f) n0 = Some a /\ calc_rewards f blk x0 a b = Ok v /\ o = [nn; amt; v].
+Proof.
+  intros A H. pose proof A as [HM _ _].
+  unfold ep_claim in H.
+  destruct (active f); [|discriminate].
+  apply bind_ok in H. destruct H as (f1 & H1 & H).
+  apply bind_ok in H. destruct H as (f2 & H2 & H).
+  apply bind_ok in H. destruct H as (a & Ha & H).
+  apply bind_ok in H. destruct H as (part & Hpart & H).
+  apply bind_ok in H. destruct H as (base & Hbase & H).
+  apply bind_ok in H. destruct H as (f3 & H3 & H).
+  apply bind_ok in H. destruct H as (f4 & H4 & H).
+  apply bind_ok in H. destruct H as (m & Hm & H).
+  destruct (mint_pos f4 m c) as [f5 n] eqn:Hmint. inversion H; subst; clear H.
+  cbn [fst snd] in *.
+  apply pay_all_MI in H1; auto. destruct H1 as (M1 & SB1 & _ & A1 & _).
+  rewrite settle_total in H2. inversion H2; subst f2; clear H2.
+  pose proof (settle_total f1 blk) as Hs1. apply settle_MI in Hs1; auto.
+  destruct Hs1 as (_ & _ & _ & T2 & _). destruct (toks_fields _ _ T2) as (_ & At2 & _).
+  apply get_attrs_some in Ha. rewrite At2, A1 in Ha.
+  apply into_part_amt in Hpart. destruct Hpart as (_ & Pr & _).
+  exists a, n, (a_amt m), (base + b).
+  split; [exact Ha|]. split; [|reflexivity].
+  unfold calc_rewards, query_cache. rewrite settle_total. cbn [bind].
+  pose proof (settle_fn_sbt f f1 blk SB1) as SB2.
+  rewrite <- (base_reward_sbt _ _ a x0 SB2).
+  assert (Hb : base_reward (settle_fn f1 blk) a x0 = Ok base).
+  { unfold base_reward in *. rewrite <- Pr. exact Hbase. }
+  rewrite Hb. reflexivity.
+Qed.
+
+(** the cache the query settles and drops is, field for field on the reward accounting, the cache
+    claimRewards settles and commits in the same block *)
+Lemma farm_query_settlement f blk ep c n0 x0 adds b f' o :
+  FarmAcc f -> ep_claim f blk ep c (n0, x0) adds b = Ok (f', o) ->
+  exists f1 f2 fv,
+    pay_all f c ((n0, x0) :: adds) = Ok f1 /\ settle f1 blk = Ok f2 /\
+    query_cache f blk = Ok fv /\ same_but_toks fv f2.
+Proof.
+  intros A H. pose proof A as [HM _ _].
+  unfold ep_claim in H. destruct (active f); [|discriminate].
+  apply bind_ok in H. destruct H as (f1 & H1 & H).
+  apply bind_ok in H. destruct H as (f2 & H2 & _).
+  exists f1, f2, (settle_fn f blk). split; [exact H1|]. split; [exact H2|].
+  split; [apply settle_total|].
+  rewrite settle_total in H2. inversion H2; subst f2.
+  apply pay_all_MI in H1; auto. destruct H1 as (_ & SB1 & _).
+  apply settle_fn_sbt. exact SB1.
+Qed.
+
+End FarmQ.
+
+(** ================================================================== farm-staking *)
+Module StkQ.
+Import MX.Model.Staking QStk.
+
+(** the view is the BASE part of what claimRewards pays, for every state and every argument;
+    the rest of the payment is exactly the claimer's boosted reward [b] *)
+Lemma staking_rewards_base s blk ep c x arps b s' o :
+  claim s blk ep c x arps b = Ok (s', o) ->
+  exists base nn, calc_rewards s blk x arps = Ok base /\ o = [nn; x; base + b] /\ 0 <= b.
+Proof.
+  unfold claim, calc_rewards, query_cache, boosted_of_nobody. intros H.
+  apply bind_ok in H. destruct H as (s1 & H1 & H).
+  apply bind_ok in H. destruct H as (base & Hb & H).
+  rewrite H1. cbn [bind]. rewrite Hb. cbn [bind].
+  cbn [sstep] in H.
+  destruct (active s); [|discriminate].
+  destruct ((0 <? x) && (x <=? s_supply s)); [|discriminate].
+  rewrite H1 in H. cbn [bind] in H.
+  apply bind_ok in H. destruct H as (s2 & H2 & H). inversion H; subst; clear H.
+  unfold pay in H2. destruct ((0 <=? b) && (b <=? base + b)) eqn:E; [|discriminate].
+  apply andb_prop in E. destruct E as [E _]. apply Z.leb_le in E.
+  exists base, (s_next s2). split; [f_equal; lia|]. split; [reflexivity | exact E].
+Qed.
+
+(** claimRewards continues from exactly the cache the query computed and dropped *)
+Lemma staking_query_settlement s blk ep c x arps b s' o :
+  claim s blk ep c x arps b = Ok (s', o) ->
+  exists s1 s2 r, query_cache s blk = Ok s1 /\ pay s1 r b = Ok s2 /\ s' = bump s2 /\ o = [s_next s2; x; r].
+Proof.
+  unfold claim, query_cache. intros H.
+  apply bind_ok in H. destruct H as (s1 & H1 & H).
+  apply bind_ok in H. destruct H as (base & Hb & H).
+  cbn [sstep] in H.
+  destruct (active s); [|discriminate].
+  destruct ((0 <? x) && (x <=? s_supply s)); [|discriminate].
+  rewrite H1 in H. cbn [bind] in H.
+  apply bind_ok in H. destruct H as (s2 & H2 & H). inversion H; subst; clear H.
+  exists s1, s2, (base + b). auto.
+Qed.
+
+(** F3: the literal statement "quote = payment" fails as soon as the claimer has boosted rewards pending.
+    Two stakers, boosted yields 25 %, one week passes (history replayed on the real contract by
+    tools/props/c20.py): the view answers 54, claimRewards pays 54 + 9. *)
+Definition f3_state : stk :=
+  srun (init_stk 1000000000000 2500 10)
+       [SSetRate 10 OWNER 100; SSetState OWNER 1; STopUp OWNER 1000000000; SStart 10 OWNER;
+        SSetPct 10 OWNER 2500; SSetFactors OWNER;
+        SStake 10 5 1 100000000 0 0; SStake 10 5 2 100000000 0 0;
+        SClaim 18 12 1 100000000 27 0].
+
+Lemma staking_refuted :
+  exists s blk ep c x arps b s' nn v paid,
+    claim s blk ep c x arps b = Ok (s', [nn; x; paid]) /\ calc_rewards s blk x arps = Ok v /\ v <> paid.
+Proof.
+  exists f3_state, 26, 19, 2, 100000000, 0, 9.
+  eexists. eexists. eexists. eexists.
+  split; [vm_compute; reflexivity|]. split; [vm_compute; reflexivity|]. vm_compute. discriminate.
+Qed.
+
+End StkQ.
+
+(** ================================================================== energy-factory *)
+Module PenQ.
+Import MX.Model.Penalty MX.Proofs.PenaltyProofs QPen.
+
+(** getPenaltyAmount(amount, remaining epochs, 0) versus unlockEarly: the penalty actually charged
+    (locked amount parked minus base asset minted for the user) is the quote *)
+Lemma penalty_unlock_early s c e amt s' o :
+  ep_unlock_early s c e amt = Ok (s', o) ->
+  exists pen,
+    get_penalty_amount s amt (prev_epochs s e) 0 = Ok pen /\ pen < amt /\
+    l_q s' = l_q s ++ [mkE c (l_now s + c_unbond (l_cfg s)) e amt (amt - pen)] /\
+    g_bmint (l_g s') = g_bmint (l_g s) + (amt - pen) /\
+    bal (l_led s') UNSTAKE 0 = bal (l_led s) UNSTAKE 0 + (amt - pen).
+Proof.
+  intros H. apply ep_unlock_early_nf in H.
+  destruct H as (Hc & _ & He & _ & _ & _ & _ & _ & pen & Hpen & Hlt & ->).
+  exists pen. unfold get_penalty_amount, prev_epochs. split; [exact Hpen|]. split; [exact Hlt|].
+  red_state. split; [reflexivity|]. split; [reflexivity|].
+  rewrite !bal_cons. rewrite !Z.eqb_refl. cbn [andb].
+  destruct (Z.eqb_spec e 0); [lia|]. destruct (Z.eqb_spec c UNSTAKE); [contradiction|]. cbn [andb]. lia.
+Qed.
+
+(** getPenaltyAmount(amount, remaining epochs, remaining epochs of the token received) versus
+    reduceLockPeriod: outputs = [new unlock epoch; amount - quote] *)
+Lemma penalty_reduce b0 s c e amt le s' o :
+  Inv b0 s -> ep_reduce s c e amt le = Ok (s', o) ->
+  exists pen,
+    get_penalty_amount s amt (prev_epochs s e) (new_epochs_reduce s le) = Ok pen /\ 0 <= pen < amt /\
+    o = [l_now s + new_epochs_reduce s le; amt - pen] /\
+    0 < new_epochs_reduce s le < prev_epochs s e.
+Proof.
+  intros HI H. pose proof HI as [Io Ic _ _ _ _ _ _ _ _ _ _].
+  apply ep_reduce_nf in H; try tauto. cbv zeta in H.
+  destruct H as (_ & _ & _ & _ & _ & _ & _ & _ & Hnu & Hnue & pen & b & Hpen & Hpr & _ & _ & -> & _).
+  exists pen. unfold get_penalty_amount, prev_epochs, new_epochs_reduce.
+  split; [exact Hpen|]. split; [exact Hpr|]. split; [f_equal; lia | lia].
+Qed.
+
+Lemma penalty_err_unlock_early s c e amt er :
+  get_penalty_amount s amt (prev_epochs s e) 0 = Err er -> is_ok (ep_unlock_early s c e amt) = false.
+Proof.
+  intros Hv. destruct (ep_unlock_early s c e amt) as [[s' o]|] eqn:E; [|reflexivity].
+  apply penalty_unlock_early in E. destruct E as (pen & Hp & _). congruence.
+Qed.
+
+Lemma penalty_err_reduce b0 s c e amt le er :
+  Inv b0 s -> get_penalty_amount s amt (prev_epochs s e) (new_epochs_reduce s le) = Err er ->
+  is_ok (ep_reduce s c e amt le) = false.
+Proof.
+  intros HI Hv. destruct (ep_reduce s c e amt le) as [[s' o]|] eqn:E; [|reflexivity].
+  apply (penalty_reduce b0) in E; auto. destruct E as (pen & Hp & _). congruence.
+Qed.
+
+End PenQ.
+
+(** ================================================================== price-discovery *)
+Module PdQ.
+Import MX.Model.PriceDiscovery MX.Proofs.PriceDiscoveryProofs QPd.
+
+Lemma phase_same_block s s' : p_cfg s' = p_cfg s -> p_block s' = p_block s -> current_phase s' = current_phase s.
+Proof. intros Hc Hb. unfold current_phase. rewrite Hc, Hb. reflexivity. Qed.
+
+(** deposit: the gate is the phase getCurrentPhase reports in that block; the price checked against
+    the floor is what getCurrentPrice reports right AFTER the deposit (same block) *)
+Lemma deposit_quote s c tok amt s' o :
+  ep_deposit s c tok amt = Ok (s', o) ->
+  exists ph price,
+    current_phase s = Ok ph /\ deposit_allowed ph = true /\ current_phase s' = Ok ph /\
+    current_price s' = Ok price /\
+    (tok = TOK_L -> p_ab s = 0 \/ c_minp (p_cfg s) <= price).
+Proof.
+  intros H. apply ep_deposit_spec in H.
+  destruct H as (ph & l & price & Hph & Ha & _ & Hl & _ & D & Hp & Hf).
+  exists ph, price. split; [exact Hph|]. split; [exact Ha|].
+  split; [rewrite (phase_same_block s s' (d_cfg _ _ _ _ _ _ _ _ _ D) (d_block _ _ _ _ _ _ _ _ _ D)); exact Hph|].
+  split; [exact Hp|]. intros ->. apply Hf.
+  apply side_of_token_spec in Hl. destruct Hl as [[-> _]|[_ Hc]]; [reflexivity | discriminate Hc].
+Qed.
+
+(** withdraw: gate and penalty use exactly the phase (and percentage) the view reports; the price
+    checked is the view's value on the post-withdrawal balances *)
+Lemma withdraw_quote s c n amt s' o :
+  ep_withdraw s c n amt = Ok (s', o) ->
+  exists ph price,
+    current_phase s = Ok ph /\ withdraw_allowed ph = true /\ current_phase s' = Ok ph /\
+    o = [amt - amt * penalty_of ph / MAXP] /\
+    current_price s' = Ok price /\ c_minp (p_cfg s) <= price.
+Proof.
+  intros H. apply ep_withdraw_spec in H.
+  destruct H as (ph & l & w & price & Hph & Ha & _ & _ & Ho & Hw & _ & _ & _ & _ & _ & D & Hp & Hf).
+  exists ph, price. split; [exact Hph|]. split; [exact Ha|].
+  split; [rewrite (phase_same_block s s' (d_cfg _ _ _ _ _ _ _ _ _ D) (d_block _ _ _ _ _ _ _ _ _ D)); exact Hph|].
+  split; [subst w; exact Ho|]. split; [exact Hp | exact Hf].
+Qed.
+
+Lemma redeem_quote s c n amt s' o :
+  ep_redeem s c n amt = Ok (s', o) -> current_phase s = Ok PhRedeem.
+Proof.
+  unfold ep_redeem, current_phase. intros H. apply bind_ok in H. destruct H as (ph & Hph & H).
+  destruct ph; cbn [redeem_allowed] in H; try discriminate. exact Hph.
+Qed.
+
+(** the gates in the other direction: a phase the view reports as closed rejects the operation *)
+Lemma gates_follow_view s ph : current_phase s = Ok ph ->
+  (deposit_allowed ph = false -> forall c tok amt, is_ok (ep_deposit s c tok amt) = false) /\
+  (withdraw_allowed ph = false -> forall c n amt, is_ok (ep_withdraw s c n amt) = false) /\
+  (redeem_allowed ph = false -> forall c n amt, is_ok (ep_redeem s c n amt) = false).
+Proof.
+  unfold current_phase. intros Hph. split; [|split]; intros Hn c x amt.
+  - unfold ep_deposit. rewrite Hph. cbn [bind]. rewrite Hn. reflexivity.
+  - unfold ep_withdraw. rewrite Hph. cbn [bind]. rewrite Hn. reflexivity.
+  - unfold ep_redeem. rewrite Hph. cbn [bind]. rewrite Hn. reflexivity.
+Qed.
+
+(** a launched-token deposit / any withdrawal whose post-operation balances the view would price
+    below the minimum is rejected *)
+Lemma floor_follows_view s c amt price :
+  0 < p_ab s -> current_price (set_tr s true (p_lb s + amt)) = Ok price -> price < c_minp (p_cfg s) ->
+  is_ok (ep_deposit s c TOK_L amt) = false.
+Proof.
+  intros Hab Hp Hlt. apply deposit_floor_rejects; [exact Hab|].
+  unfold current_price in Hp. apply calculate_price_spec in Hp. destruct Hp as [_ Hp]. cbn in Hp. lia.
+Qed.
+
+End PdQ.
